@@ -972,6 +972,12 @@ func (r *Reader) parseDocument() error {
 }
 
 // parseBodyElementsInOrder parses body elements maintaining document order.
+//
+// xml.Unmarshal collects the direct <w:p> and <w:tbl> children of <w:body> into
+// two separate slices. This second pass walks the same tokens and pairs the n-th
+// direct <w:p> (<w:tbl>) child with the n-th entry of the matching slice. Only
+// direct children of the body count: paragraphs and tables nested deeper (in
+// table cells, text boxes, content controls, ...) are not in those slices.
 func (r *Reader) parseBodyElementsInOrder(data []byte) error {
 	if r.document.Body == nil {
 		return nil
@@ -979,6 +985,7 @@ func (r *Reader) parseBodyElementsInOrder(data []byte) error {
 
 	decoder := xml.NewDecoder(strings.NewReader(string(data)))
 	var inBody bool
+	var depth int // nesting depth below <w:body>; its direct children are at depth 1
 	var paraIndex, tableIndex int
 
 	for {
@@ -989,13 +996,17 @@ func (r *Reader) parseBodyElementsInOrder(data []byte) error {
 
 		switch t := token.(type) {
 		case xml.StartElement:
-			// Check if we're entering the body
-			if t.Name.Local == "body" {
-				inBody = true
+			if !inBody {
+				// Check if we're entering the body
+				if t.Name.Local == "body" {
+					inBody = true
+					depth = 0
+				}
 				continue
 			}
 
-			if !inBody {
+			depth++
+			if depth != 1 {
 				continue
 			}
 
@@ -1019,9 +1030,15 @@ func (r *Reader) parseBodyElementsInOrder(data []byte) error {
 				}
 			}
 		case xml.EndElement:
-			if t.Name.Local == "body" {
-				inBody = false
+			if !inBody {
+				continue
 			}
+			if depth == 0 {
+				// End of the body itself
+				inBody = false
+				continue
+			}
+			depth--
 		}
 	}
 
